@@ -779,7 +779,9 @@ def gen_coded_stream(rng: random.Random, mode: str) -> Tuple[List[Parts], List[b
         words = [b"alpha ", b"beta ", b"gamma\n", b"\x00\x01", b"0123456789", b"\r\n"]
         text = b"".join(rng.choice(words) for _ in range(n))[:n]
         coded = comp(text)
-        # (token case is left alone: an upper-case coding name is a body-decoding matter, C09, not a framing one)
+        # coding names are case-insensitive (RFC 9110 8.4.1): GZIP / Gzip must decode like gzip
+        if rng.random() < 0.3:
+            token = rng.choice([token.upper(), token.capitalize()])
         hs = [(b"Content-Encoding", token)]
         chunks = None
         body = None
